@@ -735,7 +735,7 @@ def z4(prog, tier="quick"):
     inst, findings = [], []
     shows = [f for f in prog.funcs.values() if f["n"] == "show" and prog.rel(f["file"]) == "libzwerg/constant.cc" and f.get("body") is not None and len(f["params"]) == 3]
     doms = {}
-    ev = CxxEvaluator({"ctor:ios_flag_saver": lambda ev, o, a: None}, {}, prog=prog)
+    ev = CxxEvaluator({}, {}, prog=prog)        # ios_flag_saver is interpreted: its constructor saves, its destructor restores the stream's flags
     for f in shows:
         if f.get("cls") == "numeric_constant_dom_t":
             doms["dec"] = f
@@ -827,6 +827,9 @@ def z4(prog, tier="quick"):
                     continue
                 n_eval += 1
                 text = o.text()
+                if (o.base != 10 or o.showbase) and not any(b_[0] == "flags" for b_ in bad):
+                    bad.append(("flags", "after rendering %d the stream is left in base %d%s: the next integer written to the same stream (the following element of a "
+                                         "sequence rendered with %%s) comes out in this radix, whatever its own domain" % (n, o.base, " with showbase" if o.showbase else "")))
                 rb = read_back(text)
                 if rb is None:
                     bad.append((n, "%d renders as `%s`, which is not an integer literal" % (n, text)))
@@ -835,6 +838,10 @@ def z4(prog, tier="quick"):
                 elif rb[1] != dom:
                     bad.append((n, "%d renders as `%s`, which reads back in the %s domain" % (n, text, rb[1])))
         inst.append((key, {"values": len(values)}))
+        leak = [b for b in bad if b[0] == "flags"]
+        bad = [b for b in bad if b[0] != "flags"]
+        if leak:
+            findings.append({"key": key + ":flags", "where": "libzwerg/" + f["l"], "msg": "%s domain: %s" % (dom, leak[0][1]), "detail": None})
         zero = [b for b in bad if b[0] == 0]
         other = [b for b in bad if b[0] != 0]
         if zero:
